@@ -5,5 +5,5 @@ set -e
 coqc --version | head -1
 /venv/bin/python -c "import pyhf, numpy, scipy; print('pyhf import ok')"
 mkdir -p coq/gen evidence replays .work
-export PYTHONPATH=/verif:/repo/src PYTHONHASHSEED=0 PYTHONDONTWRITEBYTECODE=1
+export PYTHONPATH=$(pwd -P):/repo/src PYTHONHASHSEED=0 PYTHONDONTWRITEBYTECODE=1
 /venv/bin/python -W ignore -m harness.setup
